@@ -5,8 +5,10 @@ Require Import Nib.C03.Model Nib.C03.Ref Nib.C03.Spec Nib.C03.ProofsBase Nib.C03
                Nib.C03.ProofsOps Nib.C03.ProofsSim Nib.C03.ProofsInv.
 Local Open Scope Z_scope.
 
-(** keeper well-formedness: no storage without an account *)
-Definition kwf (k : keeper) : Prop := forall a, k_acct k a = None -> forall ky, k_stor k a ky = 0.
+(** keeper well-formedness: no storage without an account; every account's code is in the
+    (shared) bytecode table *)
+Definition kwf (k : keeper) : Prop :=
+  (forall a, k_acct k a = None -> forall ky, k_stor k a ky = 0) /\ code_inv k.
 
 (** two keepers agree at address [a] *)
 Definition same_k_at (k1 k2 : keeper) (a : addr) : Prop :=
@@ -83,11 +85,26 @@ Definition commit_addr (s : sdb) (k : keeper) (a : addr) : keeper :=
 Lemma commit_eq s : commit s = fold_left (commit_addr s) (nodup_z (touched s)) (kp s).
 Proof. reflexivity. Qed.
 
+Definition code_written (k : keeper) (o : obj) : keeper :=
+  if dcode o && negb (chash o =? 0) then kset_code k (chash o) else k.
+
+Lemma commit_obj_eq' k a o :
+  commit_obj k a o =
+  if suicided o then kdelete k a
+  else fold_left (stor_step a o) (dkeys o)
+         (kset_acct (code_written k o) a (Some {| ka_bal := to_native (bal o); ka_nonce := nonce o; ka_code := chash o |})).
+Proof. reflexivity. Qed.
+
+Lemma code_written_acct k o : k_acct (code_written k o) = k_acct k.
+Proof. unfold code_written. destruct (_ && _); reflexivity. Qed.
+Lemma code_written_stor k o : k_stor (code_written k o) = k_stor k.
+Proof. unfold code_written. destruct (_ && _); reflexivity. Qed.
+
 Lemma commit_obj_eq k a o :
   commit_obj k a o =
   if suicided o then kdelete k a
   else fold_left (stor_step a o) (dkeys o)
-         (kset_acct k a (Some {| ka_bal := to_native (bal o); ka_nonce := nonce o; ka_code := chash o |})).
+         (kset_acct (code_written k o) a (Some {| ka_bal := to_native (bal o); ka_nonce := nonce o; ka_code := chash o |})).
 Proof. reflexivity. Qed.
 
 Lemma commit_obj_other k a o b : b <> a -> same_k_at (commit_obj k a o) k b.
@@ -95,8 +112,8 @@ Proof.
   intro Hne. rewrite commit_obj_eq. destruct (suicided o).
   - unfold kdelete. destruct (k_acct k a); [|apply same_k_refl].
     split; simpl; intros; unfold upd; destruct (Z.eqb_spec b a); try contradiction; reflexivity.
-  - split; [rewrite stor_fold_acct; simpl; unfold upd; destruct (Z.eqb_spec b a); try contradiction; reflexivity|].
-    intro ky. rewrite stor_fold_stor. destruct (Z.eqb_spec b a); try contradiction. simpl. reflexivity.
+  - split; [rewrite stor_fold_acct; simpl; rewrite code_written_acct; unfold upd; destruct (Z.eqb_spec b a); try contradiction; reflexivity|].
+    intro ky. rewrite stor_fold_stor. destruct (Z.eqb_spec b a); try contradiction. simpl. rewrite code_written_stor. reflexivity.
 Qed.
 
 Lemma commit_obj_cong k1 k2 a o : same_k_at k1 k2 a -> same_k_at (commit_obj k1 a o) (commit_obj k2 a o) a.
@@ -105,7 +122,7 @@ Proof.
   - unfold kdelete. rewrite A. destruct (k_acct k2 a) eqn:E2; [|split; [congruence|exact B]].
     split; simpl; intros; rewrite ?upd_same; reflexivity.
   - split; [rewrite !stor_fold_acct; simpl; rewrite !upd_same; reflexivity|].
-    intro ky. rewrite !stor_fold_stor. destruct (_ && _ && _); [reflexivity|]. simpl. apply B.
+    intro ky. rewrite !stor_fold_stor. destruct (_ && _ && _); [reflexivity|]. simpl. rewrite !code_written_stor. apply B.
 Qed.
 
 Lemma commit_addr_other s k a b : b <> a -> same_k_at (commit_addr s k a) k b.
@@ -180,10 +197,10 @@ Proof.
       * (* self-destructed: DeleteAccount *)
         unfold kdelete. destruct (k_acct (kp s) a) eqn:Hka; simpl.
         -- rewrite !upd_same. split; [exact I|reflexivity].
-        -- rewrite Hka. split; [exact I|]. intro ky. apply Hk, Hka.
+        -- rewrite Hka. split; [exact I|]. intro ky. apply (proj1 Hk), Hka.
       * split.
         -- rewrite stor_fold_acct. simpl. rewrite upd_same. auto.
-        -- intro ky. apply commit_storage; [apply (inv_objs _ HI), Hl|reflexivity].
+        -- intro ky. apply commit_storage; [apply (inv_objs _ HI), Hl|intro x; simpl; rewrite code_written_stor; reflexivity].
     + rewrite (lookup_none_kobj_acct s a Hl). split; [exact I|reflexivity].
   - (* nobody is charged for [a]: the keeper already holds what the account shows *)
     assert (Hc : count_dirty a (journal s) = 0).
@@ -193,4 +210,74 @@ Proof.
     + split; [|intro ky; apply eq_sym, B].
       simpl. split; [symmetry; apply to_native_to_wei|auto].
     + split; [exact I|]. intro ky. symmetry. apply B.
+Qed.
+
+(** ** the bytecode table: Commit only ever ADDS code; DeleteAccount leaves it alone, so the code
+    of an account that shares its bytecode with a self-destructed sibling stays retrievable *)
+Lemma kdelete_keeps_code k a : k_code (kdelete k a) = k_code k.
+Proof. unfold kdelete. destruct (k_acct k a); reflexivity. Qed.
+
+Lemma stor_fold_code a o l : forall k, k_code (fold_left (stor_step a o) l k) = k_code k.
+Proof.
+  induction l as [|x l IH]; intro k; simpl; [reflexivity|]. rewrite IH.
+  unfold stor_step. destruct (dirty o x); [destruct (_ =? _)|]; reflexivity.
+Qed.
+
+Lemma commit_obj_code k a o h :
+  k_code (commit_obj k a o) h =
+  if negb (suicided o) && dcode o && negb (chash o =? 0) && (h =? chash o) then true else k_code k h.
+Proof.
+  rewrite commit_obj_eq'. destruct (suicided o); simpl; [rewrite kdelete_keeps_code; reflexivity|].
+  rewrite stor_fold_code. simpl. unfold code_written. destruct (dcode o); simpl; [|reflexivity].
+  destruct (chash o =? 0); simpl; [reflexivity|]. unfold upd. destruct (h =? chash o); reflexivity.
+Qed.
+
+Lemma commit_addr_code_mono s k a h : k_code k h = true -> k_code (commit_addr s k a) h = true.
+Proof.
+  intro H. unfold commit_addr. destruct (0 <? dirties s a); [|exact H].
+  destruct (lookup s a); [|exact H]. rewrite commit_obj_code, H. destruct (_ && _ && _ && _); reflexivity.
+Qed.
+
+Lemma commit_fold_code_mono s l h : forall k, k_code k h = true -> k_code (fold_left (commit_addr s) l k) h = true.
+Proof. induction l as [|b l IH]; intros k H; simpl; [exact H|]. apply IH, commit_addr_code_mono, H. Qed.
+
+Lemma commit_fold_code_written s a o l : In a l -> 0 < dirties s a -> lookup s a = Some o ->
+  suicided o = false -> dcode o = true -> chash o <> 0 ->
+  forall k, k_code (fold_left (commit_addr s) l k) (chash o) = true.
+Proof.
+  intros Hin Hd Hl Hs Hdc Hc. induction l as [|b l IH]; intro k; [contradiction|]. simpl.
+  destruct (Z.eq_dec b a) as [->|Hne].
+  - apply commit_fold_code_mono. unfold commit_addr.
+    destruct (Z.ltb_spec 0 (dirties s a)); [|lia]. rewrite Hl, commit_obj_code, Hs, Hdc. simpl.
+    destruct (Z.eqb_spec (chash o) 0); [contradiction|]. simpl. rewrite Z.eqb_refl. reflexivity.
+  - destruct Hin as [->|Hin]; [contradiction|]. apply IH, Hin.
+Qed.
+
+Theorem commit_code_table s :
+  Inv s -> clean (kp s) (journal s) (V s) ->
+  (forall h, k_code (kp s) h = true -> k_code (commit s) h = true) /\ code_inv (commit s).
+Proof.
+  intros HI Hcl. split; [intros h H; rewrite commit_eq; apply commit_fold_code_mono, H|].
+  intros a x Hx. rewrite commit_eq in *.
+  assert (Hat : same_k_at (fold_left (commit_addr s) (nodup_z (touched s)) (kp s)) (commit_addr s (kp s) a) a).
+  { destruct (in_dec Z.eq_dec a (nodup_z (touched s))) as [Hin|Hnin].
+    - apply commit_fold_in; [apply NoDup_nodup|exact Hin].
+    - eapply same_k_trans; [apply commit_fold_notin, Hnin|].
+      unfold commit_addr. destruct (Z.ltb_spec 0 (dirties s a)); [|apply same_k_refl].
+      exfalso. apply Hnin. apply nodup_In. apply (inv_touched _ HI). assumption. }
+  destruct Hat as [Hacct _]. rewrite Hacct in Hx. unfold commit_addr in Hx.
+  destruct (Z.ltb_spec 0 (dirties s a)) as [Hd|Hd].
+  - destruct (lookup s a) as [o|] eqn:Hl.
+    + rewrite commit_obj_eq' in Hx. destruct (suicided o) eqn:Hs.
+      * unfold kdelete in Hx. destruct (k_acct (kp s) a) eqn:Hka; simpl in Hx.
+        -- rewrite upd_same in Hx. discriminate.
+        -- congruence.
+      * rewrite stor_fold_acct in Hx. simpl in Hx. rewrite upd_same in Hx. injection Hx as <-. simpl.
+        destruct (Z.eq_dec (chash o) 0) as [Hz|Hnz]; [left; exact Hz|right].
+        destruct (dcode o) eqn:Hdc.
+        -- apply (commit_fold_code_written s a o); auto. apply nodup_In, (inv_touched _ HI), Hd.
+        -- apply commit_fold_code_mono.
+           destruct (inv_objs _ HI a o Hl) as (_ & _ & _ & Hsrc). destruct (Hsrc Hdc); [contradiction|assumption].
+    + destruct (inv_kcode _ HI a x Hx) as [Hz|Hc]; [left; exact Hz|right; apply commit_fold_code_mono, Hc].
+  - destruct (inv_kcode _ HI a x Hx) as [Hz|Hc]; [left; exact Hz|right; apply commit_fold_code_mono, Hc].
 Qed.
